@@ -398,7 +398,7 @@ def check_dipole_j(chk, s):
 
 # ------------------------------------------------------------------------------------------------ driver
 def run(tier, seed, hint):
-    reps = 1 if tier == "quick" else 4
+    reps = 1 if tier == "quick" else 10
     bound_sys = (f"{3 * reps} synthetic solvated systems (seed={seed}): 2-3 peptide chains of unequal length with ACE/NME caps (no CA), glycines, proline, one "
                  "residue stripped of its CA, one of its HA, 5 waters, Na+/Cl-; 3 frames each; orthorhombic / triclinic (solute straddling the faces) / no cell")
     c1 = Check("contacts-all", "md.compute_contacts(contacts='all')", bound_sys + "; 5 schemes x periodic {T,F} x ignore_nonprotein {T,F}",
